@@ -45,11 +45,11 @@ def mvdr(d, ctx):
         a = gen.cnormal(rng, (D,))
         lead = ()
     elif form == '(F,D)':
-        phi = gen.vary(d, gen.hpd(rng, D, cond, scale, (F,)), 102)
+        phi = gen.vary(d, gen.structure(d, gen.hpd(rng, D, cond, scale, (F,)), 112), 102)
         a = gen.cnormal(rng, (F, D))
         lead = (F,)
     elif form == '(K,F,D)':
-        phi = gen.vary(d, gen.hpd(rng, D, cond, scale, (F,)), 103)
+        phi = gen.vary(d, gen.structure(d, gen.hpd(rng, D, cond, scale, (F,)), 113), 103)
         a = gen.cnormal(rng, (K, F, D))
         lead = (K, F)
     else:
@@ -99,7 +99,7 @@ def lcmv(d, ctx):
     D, F, cond, scale = _dims(d)
     K = d.int(1, min(3, D))
     rng = d.rng()
-    phi = gen.vary(d, gen.hpd(rng, D, min(cond, 1e4), scale, (F,)), 105)
+    phi = gen.vary(d, gen.structure(d, gen.hpd(rng, D, min(cond, 1e4), scale, (F,)), 115), 105)
     atf = gen.cnormal(rng, (K, F, D))
     rk = d.choice(['onehot', 'real', 'ones'])
     if rk == 'onehot':
@@ -169,7 +169,7 @@ def souden_wmwf(d, ctx):
     bf = _bf()
     D, F, cond, scale = _dims(d)
     rng = d.rng()
-    phi_nn = gen.vary(d, gen.hpd(rng, D, cond, scale, (F,)), 106)
+    phi_nn = gen.vary(d, gen.structure(d, gen.hpd(rng, D, cond, scale, (F,)), 116), 106)
     phi_xx, a, tk = _target(d, rng, D, F, cond, scale * d.choice([1.0, 1e-3, 1e3]))
     ref = d.int(0, D - 1)
     mu = d.choice([0.0, 1.0, 100.0]) if d.bool() else d.float(0, 100)
@@ -233,7 +233,7 @@ def reference_channel(d, ctx):
     bf = _bf()
     D, F, cond, scale = _dims(d)
     rng = d.rng()
-    phi_nn = gen.vary(d, gen.hpd(rng, D, min(cond, 1e4), scale, (F,)), 107)
+    phi_nn = gen.vary(d, gen.structure(d, gen.hpd(rng, D, min(cond, 1e4), scale, (F,)), 117), 107)
     phi_nn = phi_nn * 10 ** rng.uniform(-2, 2, size=(F, 1, 1))
     phi_xx, a, tk = _target(d, rng, D, F, min(cond, 1e3), scale)
     mu = d.choice([0.0, 0.5, 1.0, 10.0, 100.0])
@@ -272,7 +272,7 @@ def wmwf_options(d, ctx):
     D, F, cond, scale = _dims(d)
     rng = d.rng()
     single = d.int(0, 3) == 0
-    phi_nn = gen.vary(d, gen.hpd(rng, D, min(cond, 1e3), scale, (F,)), 108)
+    phi_nn = gen.vary(d, gen.structure(d, gen.hpd(rng, D, min(cond, 1e3), scale, (F,)), 118), 108)
     phi_xx, a, tk = _target(d, rng, D, F, min(cond, 1e3), scale)
     if single:
         phi_nn, phi_xx = phi_nn.astype(np.complex64), phi_xx.astype(np.complex64)
